@@ -349,7 +349,11 @@ class ExpressionParser:
                 op = self.cg.get_op(label, shape=v_tmp.shape, dtype=v_tmp.dtype)
                 backend_funcs = {label: op['func']}
             except (KeyError, IndexError):
-                backend_funcs = {}
+                try:
+                    # application to numbers only (`sigmoid(3.0)`): no argument variable to take shape and dtype from
+                    backend_funcs = {label: self.cg.get_op(label)['func']} if not func_args else {}
+                except (KeyError, TypeError):
+                    backend_funcs = {}
 
             # parse mathematical operation into compute graph (lambdify deferred to first eval_node call)
             return self.cg.add_op(inputs, label=label, expr=expr, func_args=func_args,
